@@ -13,7 +13,7 @@ use std::collections::BTreeSet;
 pub const DEF: PropDef = PropDef {
     id: "C10",
     level: "exploration",
-    rule: "all programs that build a dictionary from every ordered selection of k=2 keys, of k=3 keys (quick: out of the first 7 keys and, separately, out of the 5 number-like and empty string keys; thorough: all, and k=4) out of {\"p\",\"q\",\"r\",true,null,mysterious,\"true\",\"null\",\"9\",\"10\",\"1a\",\"\"} and then apply one of 49 operations (join with/without delimiter, join with a non-string value at each key position, print, compare, copy, every erroring statement whose message renders the array, the array as delimiter / radix / key / callee / element of another array), plus a parse/lint/runtime-error corpus; plus the confusable-keys family (pairs / triples of keys that truncation at 7..1000 characters, case folding, trimming, normalisation, numeric reading or escaping would merge, every insertion order); plus histories (all ordered pairs of 70 programs (incl. tiny programs whose words are aligned but differ in being keywords) copied into one reused buffer and run one after the other on one thread: the second must behave as it does alone); each program is run under hash seeds 0,1,2,... in fresh threads until every one of the k! iteration orders of its dictionary has been observed (cap 64 / 600 seeds); stdout, result, error text, parse errors and lint reports must be byte-identical across all runs; non-trivial = at least two different iteration orders were actually exercised for the program; distinct = distinct program text",
+    rule: "all programs that build a dictionary from every ordered selection of k=2 keys, of k=3 keys (quick: out of the first 7 keys and, separately, out of the 5 number-like and empty string keys; thorough: all, and k=4) out of {\"p\",\"q\",\"r\",true,null,mysterious,\"true\",\"null\",\"9\",\"10\",\"1a\",\"\"} and then apply one of 49 operations (join with/without delimiter, join with a non-string value at each key position, print, compare, copy, every erroring statement whose message renders the array, the array as delimiter / radix / key / callee / element of another array), plus a parse/lint/runtime-error corpus; plus the confusable-keys family (pairs / triples of keys that truncation at 7..1000 characters, case folding, trimming, normalisation, numeric reading, escaping or splitting a rendered entry at `: ` / `, ` would merge, every insertion order); plus histories (all ordered pairs of 70 programs (incl. tiny programs whose words are aligned but differ in being keywords) copied into one reused buffer and run one after the other on one thread: the second must behave as it does alone); each program is run under hash seeds 0,1,2,... in fresh threads until every one of the k! iteration orders of its dictionary has been observed (cap 64 / 600 seeds); stdout, result, error text, parse errors and lint reports must be byte-identical across all runs; non-trivial = at least two different iteration orders were actually exercised for the program; distinct = distinct program text",
     assumptions: &[
         "seed control relies on std resolving getrandom through a weak symbol; ./check selftest fails loudly if the same seed stops giving the same order or different seeds stop giving different orders",
         "a dictionary whose orders were not all reached within the seed cap is reported in the evidence as partially covered",
@@ -173,6 +173,10 @@ fn build(tier: Tier) -> Box<dyn Check> {
         &["\"İ\"", "\"i\u{307}\"", "\"i\""],
         &["\"\u{0}\"", "\"\"", "\" \""],
         &["\"k\u{feff}\"", "\"k\"", "\"k\u{200b}\""],
+        // keys holding the separators a rendering puts between key and value and between entries
+        &["\"a: 1\"", "\"a: 2\"", "\"a: 3\""],
+        &["\"a, b\"", "\"a, c\"", "\"a\""],
+        &["\"a: \"", "\"a\"", "\"a:\""],
     ] {
         groups.push(g.iter().map(|s| s.to_string()).collect());
     }
